@@ -28,16 +28,24 @@ FUNCTIONS = ["ioflo.base.acting.Suspender.action/deactivize/deactivate", "ioflo.
 ASSUMPTIONS = [
     "program family: one framer of N frames (arbitrary forest, arbitrary first), one conditional auxiliary on a frame of the start outline "
     "(2 frames: q0 --y>=1--> q1 'done me'; or 1 frame with 'done me' = completes immediately), one transition from a frame of the start outline",
-    "share values integers in [0,1]; start tick concrete, the following 2-3 ticks fully symbolic",
+    "share values integers in [0,1]; prelude concrete (start; for the `running` shards one more tick that activates the auxiliary), the following 1-3 ticks fully symbolic",
     "exit actions of frames that were suspended when the framer left them are ignored in the comparison (their absence is C06's known finding)",
 ] + ["reference choice where the statement is silent: " + s for s in floref.SILENT]
 
 
-def h(sym, n, symticks, parent, aux_frames, end):
+def h(sym, n, symticks, parent, aux_frames, end, running=False):
     prog, info = flostep.family(sym, n, ngo=1, auxes=("cond",), parent=parent, near_in_cur=True, host_in_cur=True,
                                 aux_frames=aux_frames)
-    controls = [START] + [RUN] * symticks + ([end] if end is not None else [])
-    text, out = flostep.run(sym, prog, controls, plan=[{"*": 1}])
+    controls = [START]
+    plan = [{"*": 1}]
+    if running:     # concrete prelude tick: the auxiliary's condition holds, it does not complete, no transition
+        controls.append(RUN)
+        pre = {"*": 1, "x0": 0}
+        for (name, kind, host) in info["aux"]:
+            pre["y_" + name] = 0
+        plan.append(pre)
+    controls += [RUN] * symticks + ([end] if end is not None else [])
+    text, out = flostep.run(sym, prog, controls, plan=plan)
     prev = None
     for k, (control, rlog, flog, robs, fobs, env) in enumerate(out):
         susp = []
@@ -75,18 +83,23 @@ def h(sym, n, symticks, parent, aux_frames, end):
 def obligations(tier):
     out = []
     if tier == "quick":
-        cfgs = [(3, 3, 2, None), (3, 2, 1, STOP)]
+        cfgs = [(3, 1, 2, None, False), (3, 1, 1, STOP, False), (3, 2, 2, None, True), (3, 1, 2, STOP, True)]
     else:
-        cfgs = [(3, 4, 2, STOP), (4, 3, 2, None), (3, 3, 1, ABORT), (4, 2, 2, ABORT)]
-    for (n, symticks, aux_frames, end) in cfgs:
+        cfgs = [(3, 3, 2, STOP, False), (3, 2, 1, ABORT, False), (3, 3, 2, None, True), (3, 2, 2, ABORT, True),
+                (4, 2, 2, None, False), (4, 2, 2, STOP, True)]
+    for (n, symticks, aux_frames, end, running) in cfgs:
         for parent in (flostep.QUICK_FORESTS[n] if tier == "quick" else flostep.all_forests(n)):
-            covers = ["aux-running", "suspended-tick"] if aux_frames == 2 else []
-            if aux_frames == 2 and symticks >= 3:
-                covers.append("completed-and-resumed")
-            out.append(Ob("step/N%d-sym%d-aux%d-%s/%s" % (n, symticks, aux_frames, {None: "run", 0: "stop", 3: "abort"}[end],
-                                                       "".join("r" if q < 0 else str(q) for q in parent)),
-                          h, dict(n=n, symticks=symticks, parent=parent, aux_frames=aux_frames, end=end),
-                          budget=500 if tier == "quick" else 1500, covers=covers,
+            covers = []
+            if aux_frames == 2:
+                covers = ["aux-running"] + (["suspended-tick"] if (running or symticks >= 2) else [])
+                if running and symticks >= 2:
+                    covers.append("completed-and-resumed")
+            out.append(Ob("step/N%d-%s-sym%d-aux%d-%s/%s" % (n, "running" if running else "fresh", symticks, aux_frames,
+                                                          {None: "run", 0: "stop", 3: "abort"}[end],
+                                                          "".join("r" if q < 0 else str(q) for q in parent)),
+                          h, dict(n=n, symticks=symticks, parent=parent, aux_frames=aux_frames, end=end, running=running),
+                          budget=600 if tier == "quick" else 2400, covers=covers,
                           bounds=dict(frames=n, forest=parent, first="any", aux_frames=aux_frames, symbolic_ticks=symticks,
+                                      prelude="start" + (" + one tick activating the conditional auxiliary" if running else ""),
                                       share_values="[0,1]")))
     return out
